@@ -449,8 +449,14 @@ func c15CloseOnce(c *Ctx, key string, cs CallSite) {
 		c.OK("C15.Q4-close-once", key, cs.In.Pos(), "closed while leaving the function for good")
 		return
 	}
-	// (b) removal: guarded by equality with the removed channel and preceded in the block by the slice shrink
-	if _, ok := c.Guarded(cs.In, Bin("==", Any(), Is(arg)), true); ok {
+	// (b) removal: guarded by equality with the removed channel (or by a successful search for it)
+	//     and preceded in the block by the slice shrink
+	_, byEq := c.Guarded(cs.In, Bin("==", Any(), Is(arg)), true)
+	_, byIdx := c.Guarded(cs.In, Bin("==", CallLike([]string{"slices.Index"}, Any(), Is(arg)), Const("-1")), false)
+	if !byIdx {
+		_, byIdx = c.Guarded(cs.In, Op("binop", ">=", CallLike([]string{"slices.Index"}, Any(), Is(arg)), Const("0")), true)
+	}
+	if byEq || byIdx {
 		shrunk := false
 		for _, in := range blk.Instrs {
 			if in == cs.In {
